@@ -122,9 +122,9 @@ def run(res, a):
     res.cov["evaluations"] += stats["fault_runs"] + nwork
     res.cov["distinct_nontrivial"] += stats["fault_runs"]
     res.cov["traces_validated_against_impl"] += stats["fault_runs"]
-    res.cov["input_distribution"] = {"workloads": nwork, "fault_positions_run": stats["fault_runs"], "os_calls_in_windows": stats["os_calls_in_windows"],
+    res.cov.setdefault("input_distribution", {}).update({"workloads": nwork, "fault_positions_run": stats["fault_runs"], "os_calls_in_windows": stats["os_calls_in_windows"],
                                      "injected_failures_total": stats["injected_failures"],
-                                     "oracle_violations_by_kind": {k[5:]: v for k, v in stats.items() if k.startswith("viol:")}}
+                                     "oracle_violations_by_kind": {k[5:]: v for k, v in stats.items() if k.startswith("viol:")}})
     res.cov["rule"] = ("for each workload (API trace x option setting) every position k of the OS-call sequence of the failure window is failed once and "
                        "persistently (quick tier: first 6 positions plus a seeded sample); a run is non-trivial when at least one failure was injected; "
                        "oracles: no crash, live blocks keep content, no overlap, every block handed out is accessible per the shim ledger, requests "
